@@ -43,6 +43,8 @@ def gen_rule(rnd, i, safe=True):
         kw["action"] = b"drop"
     ot = rnd.choice([None, None, b"histogram", b"summary"])
     kw["observer_type"] = ot
+    if ot is not None and rnd.random() < 0.2:
+        kw["observer_type"], kw["timer_type"] = None, ot          # the deprecated spelling
     if ot == b"histogram" and rnd.random() < 0.6:
         if rnd.random() < 0.5:
             kw["hist"] = dict(buckets=rnd.choice(BUCKETS))
@@ -68,7 +70,17 @@ def gen_config(rnd, safe=True, maxrules=6):
             d["summary"] = GM.summ(quantiles=rnd.choice(QUANTS), max_age=rnd.choice([0, 10**9]))
         if rnd.random() < 0.1:
             d["legacy_buckets"] = rnd.choice(BUCKETS)
+        if rnd.random() < 0.1:
+            d["legacy_quantiles"] = rnd.choice(QUANTS)          # the deprecated top-level spelling in the defaults
+        if rnd.random() < 0.12:
+            d["match_type"] = rnd.choice([b"regex", b"regex", b"glob"])          # rules without match_type follow it
+        if d["observer_type"] is not None and rnd.random() < 0.2:
+            d["observer_type"], d["timer_type"] = None, d["observer_type"]          # the deprecated spelling
     rules = [gen_rule(rnd, i, safe) for i in range(rnd.randint(0, maxrules))]
+    if d is not None and d.get("match_type") == b"regex":
+        for r in rules:
+            if r["match_type"] is None and r["match"].startswith(b"*"):
+                r["match_type"] = b"glob"          # "*..." is not a regular expression: keep the configuration loadable
     return (d, rules)
 
 
